@@ -146,9 +146,9 @@ SCENARIOS = {
         "modules": ["C14", "C14Fair", "C14FairBuild", "Unconditional", "Reachable"],
         "theorems": ["C14_fair_round_decreases", "C14_round_above_cap_decreases", "C14_round_measure", "C14_terminates_above_cap", "C14_fair_terminates", "C14_fuel_needs_small_batch", "C14_fuel_needs_unfair_round", "C14_build_terminates_above_cap", "C14_build_terminates_fair", "C14_any_memory_forest", "C14_any_memory", "C14_insert_terminates", "C14_makeT_fuel", "C14_resplit_makes_node", "C14_livelock_before_fix",
                      "C14_build_fuel_forest", "C14_reify_total", "C14_deleteTree_total"],
-        "quick": [hist("c14", 125, extra=T1, timeout=900), hist("c14inc", 12, extra=T1, timeout=900)],   # 125 = the whole grid items x split_after x memory
+        "quick": [hist("c14", 125, extra=T1, timeout=900), hist("c14inc", 12, extra=T1, timeout=900), hist("c14first", 20, extra=T1, timeout=900)],   # 125 = the whole grid items x split_after x memory
         "thorough": [hist("c14", 600, "thorough", extra=T1, timeout=3400), hist("c14", 100, "thorough", timeout=3400),
-                     hist("c14inc", 120, "thorough", extra=T1, timeout=3400)],
+                     hist("c14inc", 120, "thorough", extra=T1, timeout=3400), hist("c14first", 200, "thorough", extra=T1, timeout=3400)],
         "counts": ["C14", "C01", "C02"],
         "assumptions": ["termination of the re-split loop is probabilistic in the real code (a random split may keep all items on one side); "
                         "proved: progress when the batch exceeds the capacity, the livelock fixed point otherwise; observed: poll-limit hang detection"],
